@@ -297,6 +297,18 @@ pub fn main(args: &[String]) -> i32 {
                 let d = Difficulty::new().clock_rate(r_ref);
                 format!("{:?}|{:?}|{:?}", d.calculate(map), d.strains(map), Performance::new(map).difficulty(d.clone()).accuracy(97.0).calculate())
             });
+            // the explicit rate next to OTHER mods, with the two setters in either order (each setter is independent of the
+            // other; the rate mod of the same selection says the same thing in one call)
+            for other in [8u32, 16] {
+                extra += 1;
+                let first_rate = guarded(|| format!("{:?}", Difficulty::new().clock_rate(r_ref).mods(other).calculate(map)));
+                let first_mods = guarded(|| format!("{:?}", Difficulty::new().mods(other).clock_rate(r_ref).calculate(map)));
+                let perf_rate = guarded(|| format!("{:?}", Performance::new(map).clock_rate(r_ref).mods(other).accuracy(97.0).calculate().difficulty_attributes()));
+                if first_rate != first_mods || perf_rate != first_mods {
+                    mism.push(json!({"what": "clock_rate_and_mods_in_either_order", "mode": mode, "rate": r, "nightcore_or_daycore": core, "osu_text": text,
+                        "expected": format!("{first_mods:?}").chars().take(400).collect::<String>(), "observed": format!("{first_rate:?} / Performance: {perf_rate:?}").chars().take(600).collect::<String>()}));
+                }
+            }
             if a != b {
                 mism.push(json!({"what": "rate_mod_vs_clock_rate", "mode": mode, "rate": r, "nightcore_or_daycore": core, "osu_text": text,
                     "expected": format!("{b:?}").chars().take(500).collect::<String>(), "observed": format!("{a:?}").chars().take(500).collect::<String>()}));
